@@ -1,6 +1,7 @@
 """C12 — a failed filter insert or union leaves the filter unchanged (R12-restore)."""
 from ..paths import PathEnumerator
 from ..terms import TermBuilder, fmt, subterms, const
+from ..terms import callee_is as _nm
 from .common import SELF, self_field, is_self, self_field_term, rng_fields, INTERIOR_MUT, loop_exits_only_on_exhaustion
 
 EXPLANATION = (
@@ -143,7 +144,7 @@ def inline_replay_loops(ctx, m, pe):
             full = loop_exits_only_on_exhaustion(m, h)
             if not rev:
                 why = "log is not replayed in reverse order (stream %s)" % fmt(stream)[:120]
-        elif e[0] == "field" and e[1][0] == "variant" and e[1][2] == "Some" and e[1][1][0] == "call" and e[1][1][1].endswith("::pop") and not e[1][1][1].endswith("pop_front"):
+        elif e[0] == "field" and e[1][0] == "variant" and e[1][2] == "Some" and e[1][1][0] == "call" and e[1][1][1].endswith("::pop") and not _nm(e[1][1][1], "pop_front"):
             # entries taken from the end of the log until it is empty
             pops = [(bj, t) for bj, t in m.calls() if bj in body and t.callee_name() == "pop"]
             full = loop_exits_only_on_exhaustion(m, h, producers=("pop",))
